@@ -292,8 +292,21 @@ def extract_pool(repo, parents):
     lims = [n for n in ast.walk(fn) if isinstance(n, ast.Compare) and ast.unparse(n) == "len(self._connections) < self._max_connections"]
     if len(lims) != 1:
         raise ExtractError("`len(self._connections) < self._max_connections` not found exactly once")
+    # reservation: idle connections that have been handed to a request are exempt from the surplus rule and from eviction for room
+    src = ast.unparse(fn)
+    marks = ["reserved = [request.connection for request in self._requests if request.connection is not None]",
+             "connection.is_idle() and connection not in reserved and (len(",
+             "idle_connections = [connection for connection in self._connections if connection.is_idle() and connection not in reserved]",
+             "pool_request.assign_to_connection(connection)\n            reserved.append(connection)"]
+    present = [m in src for m in marks]
+    if any(present) and not all(present):
+        raise ExtractError("_assign_requests_to_connections: `reserved` is used in some but not all of the places the model knows")
+    if not any(present) and "reserved" in src:
+        raise ExtractError("_assign_requests_to_connections: unknown use of `reserved`")
     return [f"/-- the surplus-idle test compares `{txt}` with the keep-alive limit -/",
-            "def poolCountsIdleOnly : Bool := " + ("true" if idle_only else "false")]
+            "def poolCountsIdleOnly : Bool := " + ("true" if idle_only else "false"),
+            "/-- an idle connection handed to a request that has not started on it yet is exempt from the surplus rule and from eviction -/",
+            "def poolProtectsAssigned : Bool := " + ("true" if all(present) else "false")]
 
 
 # ---------------------------------------------------------------------------------------------
